@@ -710,6 +710,14 @@ impl WriterSet {
             self.segment_size,
             self.compression,
         )?;
+        // The synced offset is per segment: start a fresh watch channel at the new segment's
+        // write offset. Keeping the old channel would leave the previous segment's (larger)
+        // offset in it, so every append to the new segment would be acknowledged before its
+        // sync. Waiters of the old segment keep their receivers, whose last value (set by the
+        // sync above) already covers them.
+        let (sync_tx, _) = watch::channel(self.writer.write_offset());
+        self.sync_tx = sync_tx;
+
         let old_reader = mem::replace(
             &mut self.reader,
             BucketSegmentReader::open(
